@@ -9,11 +9,7 @@ Lemma swap_input_quote v e s d quote lim cgo v' qa ba :
 Proof.
   unfold swap_input, q_input_amount. intros H.
   destruct (v_open (vs v)); [|discriminate]. destruct (s =? v_engine (vc v)); [|discriminate].
-  inv_bind H. inv_bind H. injection H as E1 E2 E3. subst v' qa ba. split; [reflexivity|].
-  destruct (Z.eqb_spec quote 0) as [E|E]; cbn [negb] in Hx.
-  - inv_ok. subst. reflexivity.
-  - inv_bind Hx. rewrite Hx1. destruct (negb (lim =? 0)); [|inv_ok; reflexivity].
-    destruct d; destr_if_in Hx; try discriminate; inv_ok; reflexivity.
+  inv_bind H. inv_bind H. inv_bind H. injection H as E1 E2 E3. subst v' qa ba. auto.
 Qed.
 
 Lemma swap_output_quote v e s d base lim v' qa ba :
@@ -22,27 +18,23 @@ Lemma swap_output_quote v e s d base lim v' qa ba :
 Proof.
   unfold swap_output, q_output_amount. intros H.
   destruct (v_open (vs v)); [|discriminate]. destruct (s =? v_engine (vc v)); [|discriminate].
-  inv_bind H. inv_bind H. injection H as E1 E2 E3. subst v' qa ba. split; [reflexivity|].
-  destruct (Z.eqb_spec base 0) as [E|E]; cbn [negb] in Hx.
-  - inv_ok. subst. reflexivity.
-  - inv_bind Hx. rewrite Hx1. destruct (negb (lim =? 0)); [|inv_ok; reflexivity].
-    destruct d; cbn [flip] in Hx; destr_if_in Hx; try discriminate; inv_ok; reflexivity.
+  inv_bind H. inv_bind H. inv_bind H. injection H as E1 E2 E3. subst v' qa ba. auto.
 Qed.
 
-(* ---------- C17: limits.  A swap with a non-zero limit behaves exactly like the same swap
-   without limit when the limit is met, and fails otherwise ---------- *)
+(* ---------- C17: limits.  With a non-zero limit the swap succeeds iff the limit is met and the
+   same swap without limit succeeds, and then with the same result.  Any amount, zero included. *)
 Definition input_limit_met (d : direction) (base lim : Z) : bool :=
   match d with AddToAmm => lim <=? base | RemoveFromAmm => base <=? lim end.
 
 Lemma swap_input_limit_iff v e s d quote lim cgo base r :
-  quote <> 0 -> lim <> 0 -> q_input_amount v d quote = Ok base ->
+  lim <> 0 -> q_input_amount v d quote = Ok base ->
   (swap_input v e s d quote lim cgo = Ok r <->
    input_limit_met d base lim = true /\ swap_input v e s d quote 0 cgo = Ok r).
 Proof.
-  intros Hq Hl Hb. unfold swap_input, q_input_amount in *.
+  intros Hl Hb. unfold swap_input, q_input_amount in *.
   destruct (v_open (vs v)); [|split; [discriminate|intros [_ H]; discriminate]].
   destruct (s =? v_engine (vc v)); [|split; [discriminate|intros [_ H]; discriminate]].
-  apply Z.eqb_neq in Hq. apply Z.eqb_neq in Hl. rewrite Hq, Hl. cbn [negb]. rewrite Hb. cbn [bind].
+  apply Z.eqb_neq in Hl. rewrite Hl. cbn [negb]. rewrite Hb. cbn [bind Z.eqb negb].
   unfold input_limit_met. destruct d.
   - destruct (Z.leb_spec lim base), (Z.ltb_spec base lim); try lia; cbn [negb bind]; split; auto; try tauto;
     try discriminate; intros [H1 _]; discriminate.
@@ -54,14 +46,14 @@ Definition output_limit_met (d : direction) (quote lim : Z) : bool :=
   match flip d with RemoveFromAmm => lim <=? quote | AddToAmm => quote <=? lim end.
 
 Lemma swap_output_limit_iff v e s d base lim quote r :
-  base <> 0 -> lim <> 0 -> q_output_amount v d base = Ok quote ->
+  lim <> 0 -> q_output_amount v d base = Ok quote ->
   (swap_output v e s d base lim = Ok r <->
    output_limit_met d quote lim = true /\ swap_output v e s d base 0 = Ok r).
 Proof.
-  intros Hq Hl Hb. unfold swap_output, q_output_amount in *.
+  intros Hl Hb. unfold swap_output, q_output_amount in *.
   destruct (v_open (vs v)); [|split; [discriminate|intros [_ H]; discriminate]].
   destruct (s =? v_engine (vc v)); [|split; [discriminate|intros [_ H]; discriminate]].
-  apply Z.eqb_neq in Hq. apply Z.eqb_neq in Hl. rewrite Hq, Hl. cbn [negb]. rewrite Hb. cbn [bind].
+  apply Z.eqb_neq in Hl. rewrite Hl. cbn [negb]. rewrite Hb. cbn [bind Z.eqb negb].
   unfold output_limit_met. destruct d; cbn [flip].
   - destruct (Z.leb_spec lim quote), (Z.ltb_spec quote lim); try lia; cbn [negb bind]; split; auto; try tauto;
     try discriminate; intros [H1 _]; discriminate.
